@@ -6,7 +6,8 @@ from .c04 import ASSUME
 
 
 def aborted(r):
-    return (r['actions'].get('Abort', 0) + r['actions'].get('AbortFailed', 0)) >= 1 and r['txns'] >= 1
+    a = r['actions']
+    return (a.get('Abort', 0) + a.get('AbortFailed', 0) + a.get('AbortVoted', 0) + a.get('AbortStaged', 0)) >= 1 and r['txns'] >= 1
 
 
 def run(ctx):
@@ -21,15 +22,21 @@ def run(ctx):
     cov = {}
     for kind, cls in (('file', 'MCCls'), ('mapping', 'MCClsPlain')):
         c = sd.consts(kind, Cls=cls, **big)
-        files = S.simulate(ctx, kind, c, num=num, depth=60, seed=ctx.seed + 5, next_='Next')
+        files = S.simulate(ctx, kind, c, num=num // 2, depth=60, seed=ctx.seed + 5, next_='Next')
         res = S.replay_all(ctx, files, kind, c, opts={'bytes_check': True})
+        c2 = sd.consts(kind, Cls=cls, **dict(big, Metas=('m0', 'm1'), MaxTxn=14))
+        files = S.simulate(ctx, kind + '-late', c2, num=num, depth=90, seed=ctx.seed + 6, next_='NextAbort')
+        res += S.replay_all(ctx, files[::2], kind, c2, opts={'bytes_check': True}, tag='late')
+        if kind == 'file':
+            # a reader racing with the vote (sparse observation, records spread over several read buffers)
+            res += S.replay_all(ctx, files[1::2], kind, c2, opts={'sparse': True, 'pad': 3000}, tag='race')
         cov[kind] = S.judge(ctx, res, kind, focus=aborted)
         cov[kind]['sample'] = res[0]['sig'][:25]
     ev = sum(v['behaviours'] for v in cov.values())
     return ctx.finish({
         'evaluations': ev,
         'distinct_nontrivial': sum(v['nontrivial'] for v in cov.values()),
-        'rule': 'TLC -simulate behaviours of ZStorage under the full Next (abort enabled at every phase: after begin, '
+        'rule': 'TLC -simulate behaviours of ZStorage under the full Next and under NextAbort (abort enabled at every phase: after begin, '
                 'after each store, after a refused call, after vote; over-long metadata refused at begin; calls with a '
                 'foreign transaction in every state); after every abort the full query table must equal the table before '
                 'the begin (specification action property AbortRestores), the data file must be byte-identical to the '
